@@ -6,6 +6,9 @@ from vlib.catobs import obligations
 def build(tier, seed):
     entries = [e for e in select(tier, exclude=("rawcb",)) if not e["decl"].absolute_positioning()]
     entries = [e for e in entries if "P" not in e["tags"] or tier != "quick"]
+    if tier == "quick":
+        entries = [e for e in entries if not ("marker" in e["tags"] and "sbl" in e["tags"])
+                   or e["key"] in ("s_mark_ab_exc_2", "s_mark_nul_inc_1", "s_mark_aab_exc_4")]
     obs = []
     a = "unpack(big, off) == unpack(big[off:], 0) (values, end-off, error stack shifted by off); cutting everything after " \
         "the parsed region changes nothing (unless read-to-end / extendable regex delimiter)"
@@ -13,7 +16,7 @@ def build(tier, seed):
         rte = "readtoend" in e["tags"]
         rex = bool(e["tags"] & {"regex", "regex_ext"})
         obs += obligations("C14", [e], tier, "H.h_context(SPEC, CLS, raw, off, KEY, %r, %r)" % (rte, rex),
-                           offmax=2 if tier == "quick" else 3, assertion=a)
+                           offmax=1 if tier == "quick" else 3, assertion=a)
     return {"obligations": obs, "bounds": {"declarations": [e["key"] for e in entries]},
             "outside": ["declarations with start-of-data positioning ('begins', class align, repeated(aligned=)) and "
                         "callbacks inspecting raw are excluded by the property"], "assumptions": []}
